@@ -208,6 +208,53 @@ def rule_panic(ctx, f):
     ctx.floor("C04-PANIC", n, 6, "value writer bodies")
 
 
+def rule_depth(ctx, f):
+    ctx.rule("C04-DEPTH", "reading back costs one unit of the parser's nesting budget per array level and per dictionary level alike: on every call cycle of the "
+             "object parser exactly one call passes `budget - 1`, all others hand the budget on unchanged (a level charged twice halves the nesting the "
+             "reader accepts of what the writer emits)")
+    from recursion import decremented_from
+    names = ("parser::_parse_with_lexer_ctx", "parser::parse_dictionary_object", "parser::parse_with_lexer_ctx")
+    bodies = {n: f.body(n) for n in names}
+    if any(v is None for v in bodies.values()):
+        ctx.lost("C04-DEPTH", "object parser functions")
+        return
+    edges = {}
+    for n, b in bodies.items():
+        fl = Flow(b)
+        ints = [k for k in range(1, b["argc"] + 1) if b["locals"][k]["s"] == "usize"]
+        for bi, t in F.calls(b):
+            c = t.get("resolved") or ""
+            if c in bodies:
+                cb = bodies[c]
+                kpos = [k for k in range(1, cb["argc"] + 1) if cb["locals"][k]["s"] == "usize"]
+                if not kpos or not ints:
+                    continue
+                a = t["args"][kpos[-1] - 1]
+                dec = any(decremented_from(b, fl, a, ku) for ku in ints)
+                # a budget re-bound before the call (`let max_depth = max_depth.checked_sub(1)..?`) shows up the same way
+                edges.setdefault((n, c), []).append((1 if dec else 0, t["span"]))
+    # cycles: entry(_parse) -> dict -> parse_with -> _parse ; _parse -> parse_with -> _parse
+    def cost(path):
+        tot = []
+        for x, y in zip(path, path[1:]):
+            es = edges.get((x, y))
+            if not es:
+                return None
+            tot.append(max(e[0] for e in es))
+        return sum(tot)
+    P, D, W = names[0], names[1], names[2]
+    cyc = {"dictionary level": [P, D, W, P], "array level": [P, W, P]}
+    n = 0
+    for what, path in cyc.items():
+        c = cost(path)
+        if c is None:
+            continue
+        n += 1
+        ctx.check(c == 1, "C04-DEPTH", "parser#" + what.replace(" ", "-"), "a %s costs %d units of the nesting budget (expected 1)" % (what, c), bodies[P]["span"],
+                  detail="%s: one decrement on the cycle %s" % (what, " -> ".join(x.split("::")[-1] for x in path)))
+    ctx.floor("C04-DEPTH", n, 2, "call cycles of the object parser (array level, dictionary level)")
+
+
 def run(ctx):
     f = F.load("default")
     ctx.count("bodies", len(f.bodies))
@@ -215,6 +262,7 @@ def run(ctx):
     rule_esc_string(ctx, f)
     rule_esc_name(ctx, f)
     rule_panic(ctx, f)
+    rule_depth(ctx, f)
     return ctx.finish(
         "Static analysis: writers are summarised as regular expressions over the reader's byte classes (syntax tree for format literals, "
         "MIR for resolved callees and placeholder types) and checked for token adjacency and vocabulary; escape sets of the string and name "
